@@ -299,19 +299,21 @@ for tag, bits, one, ut in (('f32', 'll2c_f32_bits', '1.0f', 'u32'), ('f64', 'll2
         vn, vi, vr = vec_ins(L, tag, 'n'), vec_ins(L, tag, 'i'), vec_ins(L, tag, 'r')
         sfx = 'v%d_%s' % (L, tag)
         mkn, mki, mkr = vec_make(L, tag, 'n'), vec_make(L, tag, 'i'), vec_make(L, tag, 'r')
-        DOTFN = 'glm_dot_' + sfx
-        # refract(I, N, eta): the float k of the GLSL text, with dot(N, I) being the extracted glm::dot itself
-        d.shim('glm_refract_bits_' + sfx, 'void', vn + vi + [(T, 'eta')], 'auto r = glm::refract(%s, %s, eta); %s' % (mki, mkn, vec_store(L, 'r')),
-               outs=[(T, 'out', L)])
-        DT = '%s(%s)' % (DOTFN, ', '.join(names(vn) + names(vi)))
-        K = '(%s - eta * eta * (%s - %s * %s))' % (one, one, DT, DT)
-        F('glm_refract_bits_' + sfx, 'glm::refract(vec%d)  total internal reflection  compute_refract  %s' % (L, GEO), uses=[DOTFN],
+        # The shims also store glm::dot(N, I) / glm::dot(Nref, I) of the same arguments: after inlining clang merges it with the
+        # dot computed inside refract / faceforward (checked by the obligation itself: if it were a different computation the
+        # solver would have to prove two float multipliers equivalent and time out -> UNDECIDED, never a wrong verdict), so the
+        # branch condition of the clause is the extracted dot itself.
+        # refract(I, N, eta): the float k of the GLSL text
+        d.shim('glm_refract_bits_' + sfx, 'void', vn + vi + [(T, 'eta')], 'auto r = glm::refract(%s, %s, eta); %s out[%d] = glm::dot(%s, %s);' % (
+            mki, mkn, vec_store(L, 'r'), L, mkn, mki), outs=[(T, 'out', L + 1)])
+        K = '(%s - eta * eta * (%s - out[%d] * out[%d]))' % (one, one, L, L)
+        F('glm_refract_bits_' + sfx, 'glm::refract(vec%d)  total internal reflection  compute_refract  %s' % (L, GEO),
           ensures=[('exact_zero_vector_when_float_k_negative', '!(%s < %s) || (%s)' % (K, zero, ' && '.join('%s(out[%d]) == 0' % (bits, i) for i in range(L))))])
         # faceforward(N, I, Nref); r = Nref
-        d.shim('glm_faceforward_bits_' + sfx, 'void', vr + vi + vn, 'auto r = glm::faceforward(%s, %s, %s); %s' % (mkn, mki, mkr, vec_store(L, 'r')),
-               outs=[(T, 'out', L)])
-        DT = '%s(%s)' % (DOTFN, ', '.join(names(vr) + names(vi)))
-        F('glm_faceforward_bits_' + sfx, 'glm::faceforward(vec%d)  sign test  compute_faceforward  %s' % (L, GEO), uses=[DOTFN],
+        d.shim('glm_faceforward_bits_' + sfx, 'void', vr + vi + vn, 'auto r = glm::faceforward(%s, %s, %s); %s out[%d] = glm::dot(%s, %s);' % (
+            mkn, mki, mkr, vec_store(L, 'r'), L, mkr, mki), outs=[(T, 'out', L + 1)])
+        DT = 'out[%d]' % L
+        F('glm_faceforward_bits_' + sfx, 'glm::faceforward(vec%d)  sign test  compute_faceforward  %s' % (L, GEO),
           ensures=[('n_bitwise_when_float_dot_negative', '!(%s < %s) || (%s)' % (DT, zero, ' && '.join('%s(out[%d]) == %s(%s)' % (bits, i, bits, n) for i, n in enumerate(names(vn))))),
                    ('minus_n_bitwise_otherwise', '(%s < %s) || (%s)' % (DT, zero, ' && '.join(
                        '(%s != %s ? out[%d] != out[%d] : %s(out[%d]) == %s)' % (n, n, i, i, bits, i, neg_bits(n)) for i, n in enumerate(names(vn)))))])
